@@ -146,7 +146,8 @@ Inductive err :=
 | ErrNeedsCfg (name : str)              (* "'<name>' has no default value and was not given in config!" *)
 | ErrUnknown (names : list str)         (* '<a>, <b> does not exist (use one of ...)' *)
 | ErrMandatory (prop : str)             (* module property '<prop> needs a value of type ...' *)
-| ErrCheck (name : str).                (* '<aname>: ...' from the accessible's checkProperties *)
+| ErrCheck (name : str)                 (* '<aname>: ...' from the accessible's checkProperties *)
+| ErrDupExport (name : str).            (* '<name>: export name ... is already used by ...' *)
 
 (* ------------------------------------------------------------------ phase A: module properties *)
 Definition mvals := list (str * pyval).
@@ -330,24 +331,30 @@ Fixpoint apply_entry_keep (p : param) (e : entry) : param * pres :=
       end
   end.
 
+(* after the cfg entry (also when it failed): hiding for an unexported module, fixExport, then the name map *)
+Definition fix_export (p : param) : param :=
+  match p_export p with XTrue => set_export p (XName (export_name p)) | _ => p end.
+Definition post (mexp : bool) (p : param) : param := fix_export (if mexp then p else set_export p XFalse).
+Definition name_of (p : param) : option (str * str) :=
+  match p_export p with XName s => Some (s, p_name p) | _ => None end.
+
 Definition acc_step (mexp : bool) (p : param) (e : option cval) : option accres :=
-  let p0 := if mexp then p else set_export p XFalse in
-  let nm := match p_export p0 with
-            | XFalse => None | XTrue => Some (export_name p0, p_name p0) | XName s => Some (s, p_name p0) end in
   match e with
   | Some (CRaw _) => None
   | _ =>
-      let '(pk, r) := match e with Some (CDict en) => apply_entry_keep p0 en | _ => (p0, PGo p0) end in
+      let '(pk, r) := match e with Some (CDict en) => apply_entry_keep p en | _ => (p, PGo p) end in
       match r with
       | PCrash => None
       | PErr er =>
-          if p_iscmd pk then Some {| a_param := pk; a_errs := [er]; a_write := None; a_name := nm |}
-          else let '(p1, es, w) := handle_writes pk in
-               Some {| a_param := p1; a_errs := er :: es; a_write := w; a_name := nm |}
+          let q := post mexp pk in
+          if p_iscmd q then Some {| a_param := q; a_errs := [er]; a_write := None; a_name := name_of q |}
+          else let '(p1, es, w) := handle_writes q in
+               Some {| a_param := p1; a_errs := er :: es; a_write := w; a_name := name_of q |}
       | PGo p1 =>
-          if p_iscmd p1 then Some {| a_param := p1; a_errs := []; a_write := None; a_name := nm |}
-          else let '(p2, es, w) := handle_writes p1 in
-               Some {| a_param := p2; a_errs := es; a_write := w; a_name := nm |}
+          let q := post mexp p1 in
+          if p_iscmd q then Some {| a_param := q; a_errs := []; a_write := None; a_name := name_of q |}
+          else let '(p2, es, w) := handle_writes q in
+               Some {| a_param := p2; a_errs := es; a_write := w; a_name := name_of q |}
       end
   end.
 
@@ -426,14 +433,16 @@ Definition leaf_inverted (d : dtype) : bool :=
   | TScaled _ mn mx => flt mx mn
   | _ => false
   end.
-(* only the datatype's own properties are checked: an array does not look at its element type *)
+(* ArrayOf.checkProperties also checks its element type *)
+Definition dt_inverted (d : dtype) : bool :=
+  match d with TArray e _ _ => leaf_inverted e | _ => leaf_inverted d end.
 Definition check_param (p : param) : list err :=
   match p_descr p with
   | None => [ErrCheck (p_name p)]
   | Some _ =>
       if p_iscmd p then []
       else match p_dt p with
-           | Some d => if leaf_inverted d then [ErrCheck (p_name p)] else []
+           | Some d => if dt_inverted d then [ErrCheck (p_name p)] else []
            | None => [ErrCheck (p_name p)]
            end
   end.
@@ -456,8 +465,18 @@ Inductive outcome := Created (i : inst) | Rejected (es : list err) | Crashed.
 
 Definition writes_of (l : list accres) : list (str * pyval) :=
   flat_map (fun a => match a_write a with Some v => [(p_name (a_param a), v)] | None => [] end) l.
+(* accessiblename2attr in insertion order; a second accessible with an export name already in the map is a
+   configuration error (the module is rejected, so the map of a created module has unique keys) *)
 Definition names_of (l : list accres) : list (str * str) :=
-  fold_left (fun acc a => match a_name a with Some (x, n) => dict_set x n acc | None => acc end) l [].
+  flat_map (fun a => match a_name a with Some xn => [xn] | None => [] end) l.
+Fixpoint dup_errs (seen : list str) (l : list accres) : list err :=
+  match l with
+  | [] => []
+  | a :: r => match a_name a with
+              | Some (x, n) => (if mem_str x seen then [ErrDupExport n] else []) ++ dup_errs (x :: seen) r
+              | None => dup_errs seen r
+              end
+  end.
 
 Definition mod_init (C : cls) (c : cfg) : outcome :=
   match phaseA C c with
@@ -466,7 +485,7 @@ Definition mod_init (C : cls) (c : cfg) : outcome :=
       match phaseB (mexport mv) (c_params C) c with
       | None => Crashed
       | Some accs =>
-          let esB := flat_map a_errs accs in
+          let esB := flat_map a_errs accs ++ dup_errs [] accs in
           let esC := match unknown_names C c with [] => [] | l => [ErrUnknown l] end in
           match map_opt finish_param (map a_param accs) with
           | None => Crashed
@@ -505,10 +524,8 @@ Definition polled_names (i : inst) : list str :=
   if i_enablepoll i then map p_name (filter (fun p => negb (p_iscmd p) && p_polled p) (i_params i)) else [].
 Definition has_thread (i : inst) : bool :=
   i_enablepoll i || match i_write i with [] => false | _ => true end.
-(* a module with export = False is not initialised by _processCfg (only exported modules are, through
-   get_descriptive_data): initModule never registers it for a poll thread *)
 Definition startup (i : inst) : list ev :=
-  if mexport (i_mvals i) && has_thread i then flat_map (write_one (i_params i)) (i_write i) ++ [EvInit] ++ map EvRead (polled_names i)
+  if has_thread i then flat_map (write_one (i_params i)) (i_write i) ++ [EvInit] ++ map EvRead (polled_names i)
   else [].
 
 (* ------------------------------------------------------------------ config DSL: Mod(name, cls, description, kwds) *)
